@@ -452,7 +452,7 @@ def correspondence(ctx):
     c = Corr()
     del _DISAGREE_SPECS[:]
     t = T()
-    nlay = 700 if ctx.thorough else 110
+    nlay = 1500 if ctx.thorough else 110
     cases = []
     serial = 0
     for i in range(nlay):
@@ -890,7 +890,7 @@ def oracle(ctx, factor, seeds):
                 continue
             o.evaluations += 1
             run_checks(o, ctx.rng, json.loads(json.dumps(spec)), t, 'disagree:' + tag_of(spec))
-    n = (500 if ctx.thorough else 110) * factor
+    n = (1200 if ctx.thorough else 110) * factor
     serial = 500000
     for i in range(n):
         serial += 1
